@@ -121,7 +121,7 @@ def check(run: Run) -> None:
     eff = Effects(model)
     run.rule("C16.R1", "no-clobber: no path of init_from_template reaches a write of the target under exists(target) and not overwrite, for every valuation of the other atoms")
     run.rule("C16.R2", "first match wins, by abstract runs of init_from_template over a configured map of opaque patterns: the template of the first matching pattern in configuration order is rendered once, with that match's groups only, matched against the page name relative to the notes directory")
-    run.rule("C16.R3", "no match, no write: every writing path either matched a pattern or was given an explicit template")
+    run.rule("C16.R3", "no match, no write, by abstract runs of init_from_template: with no matching pattern and no explicit template nothing is rendered or written; otherwise the target, and only the target, receives exactly the rendering")
     run.rule("C16.R4", "who may overwrite: only call sites fed by a configuration field pass should_overwrite_existing")
     run.rule("C16.R5", "date-like captures: the recogniser regex and the strptime format of _var_map_value agree on YYYYMMDD")
     run.rule("C16.R6", "the rendered template is rebuilt from the matched template on every call (no stale cached copy)")
@@ -180,12 +180,6 @@ def check(run: Run) -> None:
                    + (" -- the path variable is re-bound between the existence test and the write" if rebound else ""))
             run.check("C16.R1", f"write at line {wnode.lineno} unreachable under exists and not overwrite", ok, "init_from_template",
                       wnode, msg, file=FILE, node=wnode, detail=dict(valuation=val, path=p.describe()))
-            # R3
-            matched = any(ev[0] == "assume" and _asserts_match(ev[1], ev[2]) for ev in p.events[:idx])
-            explicit = _explicit_template(p, idx, params)
-            run.check("C16.R3", f"write at line {wnode.lineno} only after a pattern matched or with an explicit template", matched or explicit,
-                      "init_from_template", "write without match", "a path writes the target although no pattern matched and no template was given",
-                      file=FILE, node=wnode, detail=dict(path=p.describe()))
     run.floor("writing paths of init_from_template", n_w, 2)
     run.sample(dict(rule="C16.R1", paths=len(paths), writing_paths=n_w, atoms=["exists(new_path)", ow]))
 
